@@ -185,7 +185,7 @@ func C06(r *report.Report, tier string) {
 	if tier == "thorough" {
 		depth, bound = 4, 3
 	}
-	r.Rule = fmt.Sprintf("(a) breadth-first search to depth %d over a %d-symbol alphabet of requests whose inodes coincide or are ordered arbitrarily (rename onto . / .., directory into itself, over its own parent, stale handles, cold caches after restart), from a fresh image, an inode-inverted image and an image whose next directory lands in a recycled inode (generation different from the root's): a single client must never wait on itself, deadlock or exceed the scheduling-point horizon; a further search (depth four more) over truncations and re-growths of files whose truncation is finished in the background (shrinker threads accumulate); (b) in four named states and in every state reached by a few shape-changing operations from a fresh and from an inode-inverted image (children with smaller and larger inode numbers than their parents), each with warm and with cold caches, the lock-acquisition trace of every probe operation is recorded, every pair of operations whose traces acquire two inode locks in opposite orders is a predicted deadlock, and each prediction is confirmed or refuted by exploring all schedules with <=%d deviations of the two operations run concurrently from that state - only a real deadlock schedule is a violation; (c) deadlock/horizon verdicts of all schedules with <=1 deviation of the C03 harnesses that involve renames, inverted inode numbers or background frees (horizon 400000 scheduling points)", depth, len(c06Alphabet()), bound)
+	r.Rule = fmt.Sprintf("(a) breadth-first search to depth %d over a %d-symbol alphabet of requests whose inodes coincide or are ordered arbitrarily (rename onto . / .., directory into itself, over its own parent, stale handles, cold caches after restart), from a fresh image, an inode-inverted image and an image whose next directory lands in a recycled inode (generation different from the root's): a single client must never wait on itself, deadlock or exceed the scheduling-point horizon; a further search (depth four more) over truncations and re-growths of files whose truncation is finished in the background (shrinker threads accumulate); (b) in six named states and in every state reached by a few shape-changing operations from a fresh and from an inode-inverted image (children with smaller and larger inode numbers than their parents), each with warm and with cold caches, the lock-acquisition trace of every probe operation is recorded, every pair of operations whose traces acquire two inode locks in opposite orders is a predicted deadlock, and each prediction is confirmed or refuted by exploring all schedules with <=%d deviations of the two operations run concurrently from that state - only a real deadlock schedule is a violation; (c) deadlock/horizon verdicts of all schedules with <=1 deviation of the C03 harnesses that involve renames, inverted inode numbers or background frees (horizon 400000 scheduling points)", depth, len(c06Alphabet()), bound)
 	r.Only = map[string]bool{"C06": true}
 	s1 := RunSeq(r, "c06.seq", depth)
 	s2 := RunSeq(r, "c06.seq.inv", depth-1)
@@ -199,6 +199,10 @@ func C06(r *report.Report, tier string) {
 		{Setup: append(append([]fsx.Op{}, invertedSetup...), fsx.Op{K: "MKDIR", H: "root/d2", N: "sub"}, fsx.Op{K: "CREATE", H: "root/d2/sub", N: "x"}, fsx.Op{K: "CREATE", H: "root/d2", N: "a"}, fsx.Op{K: "CREATE", H: "root", N: "a"})},
 		{Setup: append(append([]fsx.Op{}, invertedSetup...), fsx.Op{K: "MKDIR", H: "root/d2", N: "sub"}, fsx.Op{K: "CREATE", H: "root/d2/sub", N: "x"}, fsx.Op{K: "CREATE", H: "root/d2", N: "a"}, fsx.Op{K: "CREATE", H: "root", N: "a"}, fsx.Op{K: "RESTART"})},
 	}
+	// two directories whose numbers interleave with those of a sub-directory and of an empty target directory
+	// (d < d/y < d2 < d2/x): a directory renamed over a directory in the other parent against a rename out of it
+	states = append(states, lockArg{Setup: []fsx.Op{{K: "MKDIR", H: "root", N: "d"}, {K: "MKDIR", H: "root/d", N: "y"}, {K: "MKDIR", H: "root", N: "d2"}, {K: "MKDIR", H: "root/d2", N: "x"}, {K: "CREATE", H: "root/d/y", N: "a"}, {K: "CREATE", H: "root/d2", N: "a"}}},
+		lockArg{Setup: []fsx.Op{{K: "MKDIR", H: "root", N: "d"}, {K: "MKDIR", H: "root/d", N: "y"}, {K: "MKDIR", H: "root", N: "d2"}, {K: "MKDIR", H: "root/d2", N: "x"}, {K: "CREATE", H: "root/d/y", N: "a"}, {K: "CREATE", H: "root/d2", N: "a"}, {K: "RESTART"}}})
 	// plus every state reached by <= 2 shape-changing operations from the fresh and the inverted image, warm and cold
 	shape := []fsx.Op{{K: "MKDIR", H: "root", N: "d"}, {K: "MKDIR", H: "root/d", N: "y"}, {K: "CREATE", H: "root/d", N: "x"}, {K: "CREATE", H: "root", N: "a"},
 		{K: "MKDIR", H: "root/d2", N: "sub"}, {K: "CREATE", H: "root/d2", N: "a"}, {K: "CREATE", H: "root/d2/sub", N: "x"}, {K: "RMDIR", H: "root", N: "d"}, {K: "REMOVE", H: "root", N: "a"}}
